@@ -134,7 +134,7 @@ func boolFact(g *fact.Gen, name, doc string, pinned bool, ok bool, why string, v
 	g.EmitBool(name, doc, pinned, func() (bool, bool, string) { return v, ok, why })
 }
 
-func genPar(g *fact.Gen) {
+func genParWork(g *fact.Gen) {
 	const rel = "par/work.go"
 	workVars := map[string]string{"len(w.todo)": "todoLen", "w.waiting": "waiting", "w.running": "running", "n": "n", "bool:w.added[item]": "present"}
 
@@ -271,7 +271,11 @@ func genPar(g *fact.Gen) {
 			}
 			return ir >= 0 && is > ir && len(doSrc) > 0 && doSrc[len(doSrc)-1] == "w.runner()" && is == len(doSrc)-2
 		}())
+}
 
+func genParCache(g *fact.Gen) {
+	const rel = "par/work.go"
+	var e ast.Expr
 	// ------------------------------------------------------------------ Cache.Do
 	cdo := g.Method(rel, "Cache", "Do")
 	var cdoSrc []string
